@@ -74,6 +74,41 @@ def rule_seq(ck):
     ck.ob("mpt.seq_under_lock", "new/starts-at-1", len(init) >= 1 and any(expr_of(g, c.args[0]) == ("const", 1) for c in init), "", g.loc())
 
 
+def _dispatcher_guard(ck, prog):
+    """True when (a) send_response_raw records the request it answers before writing and (b) the read loop sends its
+    error response for a failed handler only if that request is not the recorded one"""
+    raw = ck.anchor(SEND_RAW)
+    writes = [c for c in raw.calls() if c.name.endswith("::write_message")]
+    marks = []
+    for i, j, pl, rv, sp in raw.assigns():
+        if pl and pl[-1] == ".answered_request":
+            e = expr_of(raw, rv["op"], depth=6) if rv["r"] == "use" else (("agg", rv["kind"], rv["name"], rv.get("variant"), [expr_of(raw, o, depth=4) for o in rv["ops"]]) if rv["r"] == "agg" else ("unknown",))
+            if e[0] == "agg" and e[3] == "Some" and ".seq" in expr_str(e, 6) and "arg2" in expr_str(e, 6):
+                marks.append(i)
+    a_ok = len(writes) == 1 and len(marks) >= 1 and all(raw.dominates(m, writes[0].bb) for m in marks)
+    run = prog.fns.get(S + "::run")
+    b_ok = False
+    if run is not None:
+        ck.saw(run)
+        se = [c for c in run.calls() if c.name == S + "::send_err"]
+        for c in se:
+            for b, blk in enumerate(run.blocks):
+                t = blk["term"]
+                if t["t"] != "switch" or not run.dominates(b, c.bb):
+                    continue
+                e = expr_of(run, t["discr"], depth=6)
+                txt = expr_str(e, 6)
+                if e[0] == "call" and e[1].endswith("::eq") and ".answered_request" in txt and ".seq" in txt:
+                    false_tgt = [x for v, x in t["arms"] if int(v) == 0]
+                    if false_tgt and run.dominates(false_tgt[0], c.bb):
+                        b_ok = True
+    ck.rule("resp.dispatcher_guard", "the read loop answers a failed handler only when that request has not been answered: send_response_raw stores Some(req.seq) into answered_request on every path before the write, and the loop's send_err sits on the `not equal` side of a comparison of answered_request with Some(req.seq)")
+    if a_ok or b_ok:
+        ck.ob("resp.dispatcher_guard", "send_response_raw/records-the-answered-request", a_ok, "", raw.loc())
+        ck.ob("resp.dispatcher_guard", "run/error-response-only-for-unanswered-request", b_ok, "", run.loc() if run is not None else "")
+    return a_ok and b_ok
+
+
 def rule_resp(ck):
     prog = ck.prog
     ck.rule("resp.exactly_one", "each dispatched handler sends exactly one response on every Ok exit and none on every Err exit (the dispatcher answers errors); never two; transport-failure exits exempt")
@@ -86,6 +121,9 @@ def rule_resp(ck):
         "serde_json::to_value": {("ok", 0, False, None), ("err", 0, True, None)},
     }
     ra = RespAnalysis(prog, fns, prim, bool_fns={S + "::consume_cancellation"})
+    # how the read loop answers a failed handler: unconditionally (then a handler must not have answered before it
+    # fails), or only when the request has not been answered yet (send_response_raw records the answered request)
+    guarded = _dispatcher_guard(ck, prog)
     d = ck.anchor(S + "::dispatch")
     handlers = []
     for c in d.calls():
@@ -114,7 +152,11 @@ def rule_resp(ck):
                 if not T and c >= 1:
                     origins.setdefault(short(qmark_origin(f, b)), set()).add(c)
         # error blocks reached through a fail edge carry their state at the block itself
-        if origins:
+        if guarded:
+            # the dispatcher answers a failure only if nothing was answered: 0 or 1 responses before the Err are both fine
+            many = {o: cs for o, cs in origins.items() if max(cs) >= 2}
+            ck.ob("resp.exactly_one", f"{nm}/err-exits-send-at-most-one", not many, f"returns Err after {many} responses" if many else "", f.loc())
+        elif origins:
             for o, cs in sorted(origins.items()):
                 ck.ob("resp.exactly_one", f"{nm}/err-exit:?@{o}", False, f"returns Err after {sorted(cs)} response(s) were already sent; the dispatcher then sends an error response with the same request_seq", f.loc(), what=f"{nm}: second response when {o} fails after the success response")
         else:
@@ -302,6 +344,10 @@ def rule_no_panic(ck):
                 continue
             pl = op_place(c.args[0])
             if not (pl and pl[0] in t):
+                continue
+            # a lock result is not request data (the session object becomes `tainted` as a whole once a request
+            # field is stored into it; poisoning of the transport mutex has nothing to do with the arguments)
+            if any(x.endswith("Mutex::<T>::lock") for x in expr_calls(expr_of(f, c.args[0], depth=4))):
                 continue
             n += 1
             ck.saw(f)
